@@ -55,7 +55,7 @@ def build_disjunction(
     for i in range(assignments.shape[0]):
         children = []
         for j in range(assignments.shape[1]):
-            children.append(Bernoulli(scope=[scope[j]], p=assignments[i, j]))
+            children.append(Bernoulli(scope=[scope[j]], p=float(assignments[i, j])))
         prod_nodes.append(Product(children=children))
 
     disjunction = Sum(children=prod_nodes, weights=weights) if len(prod_nodes) > 1 else prod_nodes[0]
